@@ -1,6 +1,6 @@
 (* Proofs about the worker-pool LTS (property C13). *)
 From Coq Require Import List ZArith Bool Arith Lia Sorted.
-From FH Require Import Model.WorkerPool.
+From FH Require Import Model.WorkerPool Spec.WorkerPoolSpec.
 Import ListNotations.
 Open Scope Z_scope.
 
@@ -45,7 +45,6 @@ Proof.
 Qed.
 
 (* ---------- sums over worker ids ---------- *)
-Definition sumw (n : nat) (f : nat -> nat) : nat := list_sum (map f (seq 0 n)).
 
 Lemma sumw_S n f : sumw (S n) f = (sumw n f + f n)%nat.
 Proof. unfold sumw. rewrite seq_S, map_app, list_sum_app. cbn. lia. Qed.
